@@ -18,7 +18,7 @@ def run(check: Check) -> None:
     check.bounds.update({"layers": "<=3 layers, <=2 keys each", "structured_shapes": ch_c19.NSHAPES, "formula_ops": 2, "orderings": ["degree", "none", "sort"], "indices": "[-4,3] thorough / [-3,2] quick", "term_pool": "7 thorough / 3 quick"})
     check.out_of_scope += ["operation sequences longer than 2 on formulas", "layers with non-int keys", "shapes outside the 9-shape menu"]
     pct = 1500 if thorough else 100
-    fns = {f: [None] for f in ("lm_lookup", "lm_len_iter", "lm_write", "lm_write_len", "lm_delete", "lm_with_layers", "lm_with_layers_multi", "lm_layer_names", "st_map", "st_simplify", "st_update_merge")}
+    fns = {f: [None] for f in ("lm_lookup", "lm_len_iter", "lm_write", "lm_write_len", "lm_delete", "lm_with_layers", "lm_with_layers_multi", "lm_named_lookup_consistent", "lm_layer_names", "st_map", "st_simplify", "st_update_merge")}
     fns["sf_ops"] = ch_c19.sf_shards(-4, 3, 7) if thorough else ch_c19.sf_shards(-3, 2, 3)
     fns["sf_more"] = [{"SHARD": k, "ORD": o, "R": (5 if thorough else 2), "NP": (7 if thorough else 3)} for k in range(6) for o in range(3)]
     for f in fns:
@@ -37,6 +37,7 @@ def run(check: Check) -> None:
             + [ch_c19.lm_write_len({1: 2}, {1: 5, 3: 4}, k, 9) for k in (1, 3, 0)]
             + [ch_c19.lm_with_layers({1: 2}, {1: 4, 2: 2}, k, 9, k2, p) for k in (1, 2, 0) for k2 in (0, 1, 2) for p in (True, False)]
             + [ch_c19.lm_layer_names({1: 2}, {3: 4}, k, 0, w) for k in (1, 3, 0) for w in (True, False)]
+            + [ch_c19.lm_named_lookup_consistent({1: 2}, {1: 3, 4: 5}, {4: 6, 9: 9}, k, sh) for k in (1, 4, 9, 0) for sh in range(4)]
             + [ch_c19.lm_with_layers_multi({1: 2, 5: 5}, {1: 3, 4: 5}, {1: 9, 4: 6, 7: 7}, k, p, ip) for k in (1, 4, 5, 7, 0) for p in (True, False) for ip in (True, False)]
             + [f(i, 1, 2, 3, 4) for f in (ch_c19.st_map, ch_c19.st_simplify) for i in range(ch_c19.NSHAPES)]
             + [ch_c19.st_update_merge(i, 1, 2, 3, 4, 9) for i in range(ch_c19.NSHAPES)]
@@ -64,6 +65,7 @@ def run(check: Check) -> None:
         probes = [("lm_lookup", [{1: 2}, {1: 3, 4: 5}, {4: 6, 9: 9}, 4]), ("lm_len_iter", [{1: 2, 3: 3}, {1: 3, 4: 5}]), ("lm_write", [{1: 2}, {3: 4}, 1, 9, 3]),
                   ("lm_write", [{1: 2}, {3: 4}, 3, 9, 1]), ("lm_write_len", [{1: 2}, {1: 5, 3: 4}, 1, 9]), ("lm_write_len", [{1: 2}, {1: 5, 3: 4}, 3, 9]), ("lm_delete", [{1: 2}, {3: 4}, 1, 9, 3]), ("lm_with_layers", [{1: 2}, {1: 4, 2: 2}, 1, 9, 2, True]),
                   ("lm_with_layers", [{1: 2}, {1: 4, 2: 2}, 2, 9, 1, False]), ("lm_layer_names", [{1: 2}, {3: 4}, 3, 0, False])]
+        probes += [("lm_named_lookup_consistent", [{1: 2}, {1: 3, 4: 5}, {4: 6, 9: 9}, k, sh]) for k in (1, 4, 9, 0) for sh in range(4)]
         probes += [("lm_with_layers_multi", [{1: 2, 5: 5}, {1: 3, 4: 5}, {1: 9, 4: 6, 7: 7}, k, p, ip]) for k in (1, 4, 5, 7, 0) for p in (True, False) for ip in (True, False)]
         probes += [(f, [i, 1, 2, 3, 4]) for f in ("st_map", "st_simplify") for i in range(ch_c19.NSHAPES)] + [("st_update_merge", [i, 1, 2, 3, 4, 9]) for i in range(ch_c19.NSHAPES)]
         probes = [(f, a, {}) for f, a in probes]
